@@ -171,7 +171,7 @@ def run_tlc(
         module = wrapper
     with open(os.path.join(work, module + ".cfg"), "w") as fh:
         fh.write(cfg)
-    jopts = ["-XX:+UseParallelGC", f"-Xmx{heap}", "-Xss64m"]
+    jopts = ["-XX:+UseParallelGC", f"-Xmx{heap}", "-Xss64m", f"-Djava.io.tmpdir={work}"]
     if depth_first:
         jopts.append("-Dtlc2.tool.queue.IStateQueue=StateDeque")
     cmd = (
